@@ -26,7 +26,7 @@ OUT_DIR = os.path.join(ROOT, "replays", "out")
 FINDINGS_FILE = os.path.join(ROOT, "known_findings.json")
 
 DEFAULT_SHARDS = int(os.environ.get("VERIF_SHARDS", "16"))
-MAX_SAMPLES = 5
+MAX_SAMPLES = 6
 
 
 def load_module(prop_id):
@@ -118,7 +118,7 @@ class Recorder(object):
         self.enumerated = {}
         self.excluded = Counter()
         self.subchecks = Counter()
-        self._sample_subs = set()
+        self._sample_counts = {}
 
     # -- recording --------------------------------------------------------
     def record(self, case, sub="main"):
@@ -140,8 +140,9 @@ class Recorder(object):
             h = case_hash(case)
             if h not in self.nontrivial:
                 self.nontrivial.add(h)
-                if sub not in self._sample_subs and len(self.samples) < MAX_SAMPLES:
-                    self._sample_subs.add(sub)
+                seen = self._sample_counts.get(sub, 0)
+                if seen < 2 and len(self.samples) < MAX_SAMPLES:
+                    self._sample_counts[sub] = seen + 1
                     self.samples.append({"subcheck": sub, "case": abbreviate(case)})
         for v in res.violations:
             known = self.findings.match(v.clause, case, v.detail, v.info)
@@ -516,7 +517,7 @@ def run_check(prop_id, tier, nshards=None, replay=None):
         for k, v in r["enumerated"].items():
             enumerated[k] = v
         for s in r["samples"]:
-            if len(samples) < MAX_SAMPLES and s["subcheck"] not in [x["subcheck"] for x in samples]:
+            if len(samples) < MAX_SAMPLES and [x["subcheck"] for x in samples].count(s["subcheck"]) < 2:
                 samples.append(s)
         for clause, known, size, case, detail, count in r["buckets"]:
             key = (clause, known)
